@@ -121,11 +121,14 @@ __attribute__((noinline,flatten)) int k_roundtrip(unsigned k, const char* s0, un
   vstd::string line; bool crlf = false;
   if (!h.readNextLine(line, crlf)) return -1;
   vstd::size_t start = 0; int ok = 1;
-  for (unsigned c = 0; c < k; c++) {
-    vstd::string e = h.nextElement(line, start, crlf);
-    outlen[c] = (unsigned)e.n; for (unsigned i = 0; i < e.n && i < 16; i++) out[c * 16 + i] = e.d[i];
-    if (!(e == syms[c])) ok = 0;
-  }
+  // the column loop of readNextTuple, written out for k <= 3 (a loop with a parameter bound confuses CBMC's unwinding bookkeeping)
+#define READ_FIELD(c) { vstd::string e = h.nextElement(line, start, crlf); \
+    outlen[c] = (unsigned)e.n; for (unsigned i = 0; i < e.n && i < 16; i++) out[c * 16 + i] = e.d[i]; \
+    if (!(e == syms[c])) ok = 0; }
+  if (k > 0) READ_FIELD(0)
+  if (k > 1) READ_FIELD(1)
+  if (k > 2) READ_FIELD(2)
+#undef READ_FIELD
   if (h.file.pos != h.file.data.n) ok = 0;          // everything written belongs to this tuple
   return ok;
 }
